@@ -26,7 +26,7 @@ def run(tier, seed):
             for opa in (range(nops) if not quick else [3, 5, 14, 15]):
                 s = src.replace('__T__', str(t)).replace('__OPA__', str(opa))
                 if quick:
-                    s = s.replace('sel(b0, b1, b2, b3) < NM and sel(k0, k1, k2, k3) < NS', 'sel(b0, b1, b2, b3) in (3, 5, 14, 15) and sel(k0, k1, k2, k3) in (0, 9, 12)')
+                    s = s.replace('sel(b0, b1, b2, b3) < NM and sel(k0, k1, k2, k3) < NS', 'sel(b0, b1, b2, b3) in (3, 5, 14, 15) and sel(k0, k1, k2, k3) in (0, 9, 14)')
                 else:
                     s = s.replace('sel(b0, b1, b2, b3) < NM and sel(k0, k1, k2, k3) < NS', 'sel(b0, b1, b2, b3) in %r and sel(k0, k1, k2, k3) in %r' % (opsb, sets))
                 h = Harness(ck, 'c17_copy_t%d_op%d' % (t, opa), s); hs.append(h)
